@@ -382,6 +382,52 @@ func TestC20Normalizations(t *testing.T) {
 			}
 		}
 	}
+	// selection through the coalescer: a single record of the type that carries exactly the has_fields of one
+	// entry (all of its type's other entries' fields absent) must come out with that entry's action — every
+	// time, and whatever was coalesced before
+	for pass := 0; pass < 2; pass++ {
+		for name, norms := range recordTypes {
+			typ, err := auparse.GetAuditMessageType(name)
+			if err != nil || typ == auparse.AUDIT_SYSCALL || typ == auparse.AUDIT_EOE || typ == auparse.AUDIT_SECCOMP {
+				continue
+			}
+			for i, n := range norms {
+				if n.Action == "" {
+					continue
+				}
+				key := fmt.Sprintf("%s#%d", name, i)
+				body := "pid=1 uid=0"
+				for _, f := range n.HasFields.Values {
+					body += " " + f + "=x"
+				}
+				if typ == auparse.AUDIT_AVC {
+					// AVC records have their own shapes; seresult is derived from "avc:  denied  { ... } for"
+					body = `apparmor="DENIED" operation="open" profile="p" name="/x" pid=1 comm="c" requested_mask="r" denied_mask="r"`
+					if len(n.HasFields.Values) == 1 && n.HasFields.Values[0] == "seresult" {
+						body = `avc:  denied  { read } for  pid=1 comm="c" scontext=a:b:c:s0 tcontext=d:e:f:s0 tclass=file`
+					} else if len(n.HasFields.Values) != 1 || n.HasFields.Values[0] != "apparmor" {
+						continue // a qualifier this sweep has no record shape for
+					}
+				}
+				m, err := auparse.Parse(typ, "audit(1.000:7): "+body)
+				if err != nil {
+					continue
+				}
+				if _, derr := m.Data(); derr != nil {
+					continue
+				}
+				ev, err := aucoalesce.CoalesceMessages([]*auparse.AuditMessage{m})
+				c.entry("normalization-selection", key)
+				if err != nil || ev == nil {
+					c.fail("normalization-selection", key, "a %s record with the fields %v cannot be coalesced: %v", name, n.HasFields.Values, err)
+					continue
+				}
+				if ev.Summary.Action != n.Action {
+					c.fail("normalization-selection", key, "a %s record with the fields %v (entry %d of %d for this type, action %q) comes out with action %q", name, n.HasFields.Values, i+1, len(norms), n.Action, ev.Summary.Action)
+				}
+			}
+		}
+	}
 	// loading twice gives the same selection
 	s2, r2, err := aucoalesce.LoadNormalizationConfig(b)
 	if err != nil || len(s2) != len(syscalls) || len(r2) != len(recordTypes) {
